@@ -322,6 +322,14 @@ def partitions(tier, seed):
             tr = sp.trace_of(sp.rsp_key(), data, cc=cc, enc=enc)
             for p in size_variants(P, "C14", sp.rsp_key(), lab + "-warn", data, tr, cfg={"cc": cc, "enc": enc, "warn": True}, budget=60)[:2]:
                 parts.append(p)
+    if quick:
+        for k in sp.struct_keys():
+            if sp.short(k).startswith("TPML_"):
+                for i, data in enumerate(G.variants(k)):
+                    for warn in (False, True):
+                        for p_ in shape_parts("C14", P, k, "v%d%s" % (i, "-warn" if warn else ""), data, budget=40):
+                            p_["cfg"]["warn"] = warn
+                            parts.append(p_)
     if not quick:
         for k in sp.struct_keys():
             for i, data in enumerate(G.variants(k)):
